@@ -154,6 +154,14 @@ def make_interface(prop):
                 except Exception:
                     pass
 
+        if not culprits:
+            # still nothing: an entry that *replaced* a good one cannot be isolated by deleting it (the object recomputes an equally
+            # inexact one).  The minimised history kept the step that wrote it, so an entry the failing object holds at the failing
+            # step and that was left behind by a query which is just as inexact (or raises) on a fresh copy is named instead
+            obj_ = r["violations"][0].get("obj")
+            culprits = [row for row in rows if row["step"] == step and row.get("direct_inexact") and row["path"] == "."
+                        and row["writer"].startswith("query:") and (obj_ is None or row["obj"] == obj_)]
+
         def classify(errs):
             """none | exact | approximate (inexact, but exact on its own column space: truncated / deflated Lanczos) | wrong"""
             errs = [e for e in errs if e is not None]
